@@ -80,7 +80,26 @@ fn case_json(mode: &ModeSpec, stream: &str, level: &str, len: usize) -> Value {
 
 fn run_table(t: &Table, lname: &str, level: P, rep: &mut Report, seen: &mut HashSet<u128>) {
     subject::force(Some(level));
-    for &(n, exp) in &t.expected {
+    // the same bytes at a different place in memory: start addresses 1 and 9 past a 64-byte boundary
+    // (the sweep's own buffer is allocator-aligned); the result may depend on the bytes only
+    let max = t.expected.iter().map(|e| e.0).max().unwrap_or(0);
+    let mut moved = vec![0u8; max + 128];
+    let base = (64 - (moved.as_ptr() as usize % 64)) % 64;
+    for (j, &(n, exp)) in t.expected.iter().enumerate() {
+        if j % 3 == 0 {
+            let off = base + if j % 2 == 0 { 1 } else { 9 };
+            moved[off..off + n].copy_from_slice(&t.data[..n]);
+            let got = vcommon::catch(|| t.mode.oneshot(&moved[off..off + n]));
+            rep.inc("evaluations");
+            rep.inc("misaligned_inputs");
+            if got != Ok(exp) {
+                let mut rj = case_json(&t.mode, &t.stream, lname, n);
+                rj["expected"] = json!(vcommon::hex(&exp));
+                rj["observed"] = json!(format!("{:?}", got.map(|h| vcommon::hex(&h))));
+                rj["input_address_mod_64"] = json!(off - base);
+                rep.violation("oneshot:misaligned-input", format!("{} of {} bytes of stream {} at level {} starting {} bytes past a 64-byte boundary differs from the specification (or panics)", t.mode.name(), n, t.stream, lname, off - base), rj);
+            }
+        }
         let input = &t.data[..n];
         let got = vcommon::catch(|| t.mode.oneshot(input));
         rep.inc("evaluations");
@@ -457,7 +476,7 @@ pub fn run(args: &Args, rep: &mut Report) {
     rep.rule = format!(
         "every length 0..={} plus the lattice k*1024+d (k<={}, 2^j chunks j<={}, {{4,8,16}}*m chunks; d in -65,-64,-63,-1,0,1,63,64,65) \
          x streams A,B x primary modes (hash, keyed(test key), derive(test context)) x every forced SIMD level; secondary keys/contexts and five degenerate contents (zeros, ones, 64- and 1024-periodic, sparse) \
-         on {} lattice lengths; a purity sweep that overwrites the same input / key / context buffers in place between calls; one-shot hash and keyed_hash of 2^32+3149 bytes at the best level (thorough: also 2^31+-1, 2^32-1, 2^32+1025); non-trivial = distinct (level, mode, stream, length) with length > 0",
+         on {} lattice lengths; every third length again from a start address 1 or 9 bytes past a 64-byte boundary; a purity sweep that overwrites the same input / key / context buffers in place between calls; one-shot hash and keyed_hash of 2^32+3149 bytes at the best level (thorough: also 2^31+-1, 2^32-1, 2^32+1025); non-trivial = distinct (level, mode, stream, length) with length > 0",
         full_range(thorough), if thorough { 2048 } else { 512 }, if thorough { 14 } else { 10 }, lite.len()
     );
     for (ti, l) in [(0usize, 0usize), (1, levels.len() - 1), (2, levels.len() / 2)] {
@@ -500,7 +519,15 @@ pub fn replay(v: &Value) -> bool {
     let lv = subject::levels().into_iter().find(|l| l.0 == level);
     subject::force(lv.map(|l| l.1));
     let exp = b3spec::hash32(&mode.spec(), &data);
-    let got = vcommon::catch(|| mode.oneshot(&data));
+    let got = match v["input_address_mod_64"].as_u64() {
+        Some(k) => {
+            let mut moved = vec![0u8; len + 128];
+            let off = (64 - (moved.as_ptr() as usize % 64)) % 64 + k as usize;
+            moved[off..off + len].copy_from_slice(&data);
+            vcommon::catch(|| mode.oneshot(&moved[off..off + len]))
+        }
+        None => vcommon::catch(|| mode.oneshot(&data)),
+    };
     subject::force(None);
     println!("expected {}", vcommon::hex(&exp));
     match got {
